@@ -5,6 +5,7 @@ package progenum
 import (
 	"fmt"
 	"strings"
+	"sync"
 
 	"verif/mc/internal/harness"
 )
@@ -163,10 +164,14 @@ var Qualified = []QName{
 }
 
 // DeclKinds for unqualified names.
-var BuiltinDecls = []string{"pkgfunc", "pkgvar", "local", "param", "method"}
+var BuiltinDecls = []string{"pkgfunc", "pkgvar", "local", "param", "method", "local+realcall", "param+realcall"}
+
+// RealName maps a neutral twin name back to the builtin it stands for (set by the C20 check before it renders
+// a twin of a "+realcall" program, whose earlier function keeps calling the real builtin).
+var RealName sync.Map
 
 // DeclKinds for qualified names.
-var QualDecls = []string{"varstructfield", "varmethod", "localvar", "param", "fakepkg", "param+import", "localvar+import"}
+var QualDecls = []string{"varstructfield", "varmethod", "localvar", "param", "fakepkg", "param+import", "localvar+import", "param+import+realcall", "localvar+import+realcall"}
 
 func body(sig Sig) string {
 	if sig.Results == "" {
@@ -199,6 +204,22 @@ func ShadowBuiltin(name, decl string, sig Sig, args, ctx string) Prog {
 			return Prog{}
 		}
 		params = name + " " + ftype
+	case "local+realcall", "param+realcall":
+		// the real builtin is called with the same arguments in an earlier function of the file; the user
+		// declaration shadows it only inside subject()
+		if sig.TParams != "" {
+			return Prog{}
+		}
+		real := name
+		if r, ok := RealName.Load(name); ok {
+			real = r.(string)
+		}
+		top = "func realUse() {\n\t" + strings.ReplaceAll(ctx, "%s", real+"("+args+")") + "\n}\n"
+		if decl == "local+realcall" {
+			pre = fmt.Sprintf("%s := %s %s\n\t", name, ftype, body(sig))
+		} else {
+			params = name + " " + ftype
+		}
 	case "method":
 		if sig.TParams != "" {
 			return Prog{}
@@ -251,6 +272,22 @@ func ShadowQualified(q QName, decl string, sig Sig, args, ctx string) Prog {
 		imp = fmt.Sprintf("import %s \"%s\"\n", as, q.Path)
 		top = fmt.Sprintf("type vrecv struct{ %s %s }\nfunc keepImport() { _ = %s.%s }\n", q.Fn, ftype, as, q.Fn)
 		params = q.Pkg + " *vrecv"
+	case "param+import+realcall", "localvar+import+realcall":
+		// as the "+import" kinds, and the real package function is called with the same arguments in an
+		// earlier function of the file
+		as := q.ImportAs
+		if as == "" {
+			as = q.Pkg
+		}
+		imp = fmt.Sprintf("import %s \"%s\"\n", as, q.Path)
+		realUse := "func realUse() {\n\t" + strings.ReplaceAll(ctx, "%s", as+"."+q.Fn+"("+args+")") + "\n}\n"
+		if decl == "param+import+realcall" {
+			top = fmt.Sprintf("type vrecv struct{ %s %s }\n", q.Fn, ftype) + realUse
+			params = q.Pkg + " *vrecv"
+		} else {
+			top = fmt.Sprintf("type vrecv struct{}\nfunc (vrecv) %s(%s) %s %s\n", q.Fn, sig.Params, sig.Results, body(sig)) + realUse
+			pre = fmt.Sprintf("var %s vrecv\n\t", q.Pkg)
+		}
 	case "localvar+import":
 		as := q.ImportAs
 		if as == "" {
